@@ -37,6 +37,7 @@ func init() {
 			ruleHeadRemovedWithGet(c, "R2")
 			ruleReservedKeysNotDeletable(c, "R3", []string{"HEAD", "OPTIONS", ""}, "HEAD is served exactly as long as GET is registered and OPTIONS cannot be removed while another method remains: reserved keys are not deletable by name")
 			ruleValidationDominatesInstall(c, "R4", false)
+			ruleHeadWriter(c, "R5")
 		},
 	})
 }
